@@ -312,6 +312,7 @@ def build(isa, e0, shape, N, sp_class=8):
     try:
         _build(isa, e0, shape, N, sp_class, ob, info)
         ob.assume += list(div_axioms)
+        ob.sat_hints = div_hints()
     except LoadError as e:
         ob.load_error = str(e)
     return ob
